@@ -475,3 +475,26 @@ def module_constant(mod, name: str) -> bool:
     if isinstance(st, ast.AnnAssign) and st.value is not None:
         return immutable_constant_expr(st.value)
     return False
+
+
+def positional_order_kept(ctx, qualnames, role_prefix="signature"):
+    """The public entry points are called positionally in the documented order (data, window_size, num_clusters, ...): the order
+    of their parameters is part of the interface.  Compared with the order recorded on the reference tree (sa/known_signatures.json);
+    appending new optional parameters at the end is fine."""
+    ana = ctx.ana
+    ref = ana.prog._reference_signatures()
+    saved, ctx.evidence = ctx.evidence, True
+    try:
+        for q in qualnames:
+            fi = ana.func(q)
+            want = ref.get(fi.qualname)
+            if not want:
+                raise AnalysisError(f"no reference signature recorded for {fi.qualname}")
+            own = list(fi.own_params)
+            ok = own[:len(want)] == list(want)
+            moved = [p for p in want if p in own and own.index(p) != list(want).index(p)]
+            ctx.check(ok, fi, f"`{short(fi.qualname)}` takes its parameters in the documented positional order", role=f"{role_prefix}:{short(fi.qualname)}",
+                      expected=", ".join(want[:6]) + (", ..." if len(want) > 6 else ""),
+                      found=(", ".join(own[:6]) + (", ..." if len(own) > 6 else "")) + (f"  (moved: {', '.join(moved)})" if moved else ""))
+    finally:
+        ctx.evidence = saved
